@@ -9,7 +9,7 @@ pub fn n_cases(prop: &str, tier: &str) -> usize {
     let quick = tier == "quick";
     match prop {
         "C06" => if quick { 64 } else { 3200 },
-        "C17" => if quick { 400 } else { 20_000 },
+        "C17" => if quick { 800 } else { 20_000 },
         _ => 0,
     }
 }
